@@ -130,7 +130,8 @@ class G15:
             # built-in objects are per context: what one program stores on them, or finds there, must
             # not depend on what other contexts of the process did (small shared pool of slot names)
             slot = rng.choice(("Math.zq%d", "JSON.zq%d", "String.zq%d", "Object.prototype.zq%d", "Error.prototype.zq%d",
-                               "Array.zq%d", "Number.zq%d")) % rng.randrange(3)
+                               "Array.zq%d", "Number.zq%d", "RegExp.zq%d", "Date.zq%d", "console.zq%d", "Function.prototype.zq%d",
+                               "Boolean.zq%d", "Int32Array.zq%d", "TypeError.prototype.zq%d", "ArrayBuffer.zq%d")) % rng.randrange(3)
             if rng.random() < 0.5:
                 return "log(%d, typeof %s);" % (t, slot)
             return "log(%d, typeof %s); %s = %s; log(%d, %s);" % (t, slot, slot, self.expr(vis), t, slot)
